@@ -532,6 +532,17 @@ def inside(x):
     return x + 1
 
 @m.memento_function
+def relay(x):
+    # (a dynamic call back to the function that is running further up the stack: nothing in this text names it)
+    if x > 0:
+        return globals()["to" + "p"](x - 1)
+    return 0
+
+@m.memento_function
+def top(x):
+    return relay(x) + 1
+
+@m.memento_function
 def caller(x, fns=None):
     REC.hit("caller", x)
     r = inside(x)
@@ -586,6 +597,12 @@ def fnarg_child(arg):
             res["chained"][name] = "undeclared"
         except Exception as e:
             res["chained"][name] = "raise:%s:%s" % (type(e).__name__, str(e)[:120])
+    try:
+        res["reentrant"] = "ok:%r" % (mod.top(1),)
+    except UndeclaredDependencyError:
+        res["reentrant"] = "undeclared"
+    except Exception as e:
+        res["reentrant"] = "raise:%s:%s" % (type(e).__name__, str(e)[:120])
     res["closure"] = sorted(f.qualified_name_without_version.split(":")[-1]
                             for f in mod.caller.dependencies().transitive_memento_fn_dependencies())
     return res
@@ -606,6 +623,10 @@ def run_fnarg(case, out, fail):
         if res["not_passed_afterwards"] != "undeclared":
             fail("a call outside the static closure is not refused",
                  "hidden call to a function that had been passed as an argument (%s) to an EARLIER call: %s" % (how, res["not_passed_afterwards"]))
+        out["obs"]["calls_expected_undeclared"] += 1
+        if res["reentrant"] != "undeclared":
+            fail("a call outside the static closure is not refused",
+                 "hidden call back to a function that is running further up the stack (top -> relay -> top): %s" % res["reentrant"])
         for name, got in sorted(res["chained"].items()):
             out["obs"]["calls_expected_undeclared"] += 1
             out["obs"]["hidden_calls_with_the_caller_behind_modifiers"] += 1
